@@ -11,6 +11,7 @@ from vyxal.lexer import Token, TokenType
 
 NILADIC_TYPES = (
     TokenType.STRING,
+    TokenType.CHARACTER,
     TokenType.NUMBER,
     TokenType.COMPRESSED_NUMBER,
     TokenType.COMPRESSED_STRING,
